@@ -292,10 +292,12 @@ class Settings(MutableMapping):
         del self._settings[key]
 
     def __iter__(self):
-        return self._settings.__iter__()
+        # A setting that so far only has a pending value has no current
+        # value: __getitem__ raises KeyError for it, so it is not a key.
+        return (k for k, v in self._settings.items() if v[0] is not None)
 
     def __len__(self):
-        return len(self._settings)
+        return sum(1 for _ in self)
 
     def __eq__(self, other):
         if isinstance(other, Settings):
